@@ -130,9 +130,13 @@ class Index:
             since = since.to_bytes(4, "big")
         if until is not None:
             until = until.to_bytes(4, "big")
-            add_time = b"%s\x00" % until
+            # the seek key sorts above every entry created at or before until:
+            # after the timestamp comes the 0x00 separator and then the id,
+            # which may start with any byte
+            add_time = b"%s\x01" % until
         else:
-            add_time = b""
+            # above every 4 byte timestamp
+            add_time = b"\xff" * 5
 
         prev = cursor.prev
         get_key = cursor.key
@@ -145,7 +149,7 @@ class Index:
                     match = next(matchiter)
                 except StopIteration:
                     return None, None
-                skipped = cursor.set_range(match + add_time + b"\xff")
+                skipped = cursor.set_range(match + add_time)
                 if skipped:
                     prev()
                 return match, skipped
@@ -159,7 +163,7 @@ class Index:
             if until:
                 start = self.prefix + until + b"\xff"
             else:
-                start = self.prefix + b"\xff"
+                start = self.prefix + b"\xff" * 5
             cursor.set_range(start)
             stop = self.prefix
             if since:
